@@ -11,6 +11,8 @@ mod c13;
 mod c15;
 mod c16;
 mod airmon;
+mod c01;
+mod c02;
 mod c03;
 mod c04;
 mod c05;
@@ -100,6 +102,8 @@ fn main() {
                 "C13" => c13::generate(&mut em, seed, thorough),
                 "C15" => c15::generate(&mut em, seed, thorough),
                 "C16" => c16::generate(&mut em, seed, thorough),
+                "C01" => c01::generate(&mut em, seed, thorough),
+                "C02" => c02::generate(&mut em, seed, thorough),
                 "C03" => c03::generate(&mut em, seed, thorough),
                 "C04" => c04::generate(&mut em, seed, thorough),
                 "C05" => c05::generate(&mut em, seed, thorough),
